@@ -179,7 +179,7 @@ def make_caller(kind, k, gens):
     raise AssertionError(kind)
 
 
-def make_world(driver, kinds, eager=False):
+def make_world(driver, kinds, eager=False, observers=False):
     def make():
         gens = {}
         callers = [make_caller(kd, i + 1, gens) for i, kd in enumerate(kinds)]
@@ -187,6 +187,7 @@ def make_world(driver, kinds, eager=False):
             from dalimc.aio.hidworld import HidWorld
             w = HidWorld(driver, bus, callers)
             w.reorder_reports = True
+            w.oneshot_observers = observers
         else:
             from dalimc.aio.serialworld import SerialWorld
             w = SerialWorld(driver, bus, callers)
@@ -329,6 +330,11 @@ def shards(tier):
         if drv == "hasseb":
             for shard_ in (("run", drv, ("Z", "P"), 1), ("eager", drv, ("Z", "S", "Q"), 1), ("eager", drv, ("S", "Z"), 1)):
                 out.append(shard_)
+        # self-unregistering application observers on bus_traffic / connection status (HID drivers)
+        if drv in ("tridonic", "hasseb"):
+            for pair in (("D", "P"), ("S", "D"), ("P", "S"), ("D", "D"), ("X", "D")):
+                out.append(("run-obs", drv, pair, 1 if tier == "quick" else 2))
+            out.append(("eager-obs", drv, ("D", "P", "S"), 1))
         # one sequence that switches between device types (the prefix must match EACH command)
         out.append(("run", drv, ("M",), 2))
         for x in ("P", "Q", "D", "S", "M"):
@@ -349,7 +355,7 @@ def shards(tier):
 def run_shard(shard):
     res = new_result()
     mode, drv, kinds, bound = shard
-    mk = make_world(drv, kinds, eager=(mode == "eager"))
+    mk = make_world(drv, kinds, eager=(mode.startswith("eager")), observers=mode.endswith("-obs"))
     outs = set()
     for ch, got in explore(lambda c: execute(mk, c), bound):
         w, obs = got
@@ -363,7 +369,8 @@ def run_shard(shard):
     # attach the schedule to each violation for replay (re-found by exploring the same scenario)
     for v in res["violations"]:
         v["case"]["bound"] = bound
-        v["case"]["eager"] = (mode == "eager")
+        v["case"]["eager"] = mode.startswith("eager")
+        v["case"]["observers"] = mode.endswith("-obs")
     res["states"] = len(outs)
     res["distinct"] = {(drv, tuple(kinds), o) for o in outs}
     sample(res, {"driver": drv, "callers": list(kinds), "bound": bound, "executions": res["evaluations"],
@@ -374,7 +381,7 @@ def run_shard(shard):
 def replay(case):
     res = new_result()
     drv, kinds, bound = case["driver"], tuple(case["kinds"]), case.get("bound", 2)
-    mk = make_world(drv, kinds, eager=case.get("eager", False))
+    mk = make_world(drv, kinds, eager=case.get("eager", False), observers=case.get("observers", False))
     first = None
     for ch, got in explore(lambda c: execute(mk, c), bound):
         w, obs = got
